@@ -27,6 +27,9 @@ var (
 	opSkip1   intOp = ro.Skip[int](1)
 	opTap     intOp = ro.TapOnNext(func(int) {})
 	opDouble  intOp = ro.FlatMap(func(v int) ro.Observable[int] { return ro.Just(v, v) })
+	// operators that emit values of their own (only in the extra "inject-*" call sites)
+	opEndWith intOp = ro.EndWith(99)
+	opSumAgg  intOp = ro.Sum[int]()
 )
 
 type promPipe struct {
@@ -183,7 +186,7 @@ func c19Case(p promPipe, word []h.Ev, licence bool, nsubs int) fw.Case {
 					if got < want {
 						cls = "too-low"
 					}
-					add("operator-processing-samples", cls, fmt.Sprintf("operator #%d (%s): %d processing-time observations, %d values left it", j, p.Names[j], got, want))
+					add("operator-processing-samples@"+p.Names[j], cls, fmt.Sprintf("operator #%d (%s): %d processing-time observations, %d values left it", j, p.Names[j], got, want))
 				}
 			}
 		}
@@ -402,10 +405,13 @@ func init() {
 						}
 					}
 				}
-				if p.Layout == "line" && (p.N <= 3 || p.N == 24) {
-					c.Explore(c19Concurrent(p, bound))
-				}
 			}})
+			if p.Layout == "line" && (p.N <= 3 || p.N == 24) {
+				// a scenario of its own: C13 re-runs it under the race detector
+				scns = append(scns, fw.Scenario{ID: fmt.Sprintf("C19/concurrent/Pipe%d", p.N), Group: fmt.Sprintf("Pipe%d", p.N), Run: func(c *fw.Ctx) {
+					c.Explore(c19Concurrent(p, bound))
+				}})
+			}
 		}
 		scns = append(scns, fw.Scenario{ID: "C19/standalone", Group: "standalone", Run: func(c *fw.Ctx) {
 			for _, w := range h.Words([]h.Ev{h.Nx(1), h.Er(h.ErrSrc), h.Co()}, 4) {
